@@ -793,19 +793,15 @@ impl StoryState {
             copy.current_flow.current_choices = self.current_flow.current_choices.clone();
         }
 
-        // The copy of the state has its own copy of the named flows dictionary,
-        // except with the current flow replaced with the copy above
+        // The copy of the state has its own copy of the named flows dictionary.
+        // That dictionary only ever holds the parked flows, never the current
+        // one: an entry for the current flow here would be a second, soon stale
+        // copy that write_json() emits under the same key as the live flow.
         // (Assuming we're in multi-flow mode at all. If we're not then
         // the above copy is simply the default flow copy and we're done)
         if self.named_flows.is_some() {
-            let mut nf = self.named_flows.clone();
-            nf.as_mut().unwrap().insert(
-                copy.current_flow.name.to_string(),
-                copy.current_flow.clone(),
-            );
+            copy.named_flows = self.named_flows.clone();
             copy.alive_flow_names_dirty = true;
-
-            copy.named_flows = nf;
         }
 
         if self.has_error() {
